@@ -1,67 +1,39 @@
 // Turns `table.rs` into compiled lexers + oracle metadata. See table.rs.
 use std::fmt::Write as _;
 
+use simcore::Rng;
+
 include!("table.rs");
-
-fn payload(cb: Cb, utf8: bool) -> Option<&'static str> {
-    match cb {
-        Cb::Unit | Cb::Skip | Cb::SkipClosure | Cb::BoolShort => None,
-        Cb::Len | Cb::FilterEven | Cb::OptOdd => Some("usize"),
-        Cb::Borrow => Some(if utf8 { "&'s str" } else { "&'s [u8]" }),
-    }
-}
-
-fn callback(cb: Cb) -> Option<&'static str> {
-    match cb {
-        Cb::Unit => None,
-        Cb::Skip => Some("logos::skip"),
-        Cb::SkipClosure => Some("|_| logos::Skip"),
-        Cb::Len => Some("|lex| lex.slice().len()"),
-        Cb::FilterEven => Some("|lex| { let n = lex.slice().len(); if n % 2 == 0 { logos::Filter::Skip } else { logos::Filter::Emit(n) } }"),
-        Cb::OptOdd => Some("|lex| { let n = lex.slice().len(); if n % 2 == 1 { Some(n) } else { None } }"),
-        Cb::BoolShort => Some("|lex| lex.slice().len() < 3"),
-        Cb::Borrow => Some("|lex| lex.slice()"),
-    }
-}
-
-pub fn enum_source(d: &D) -> String {
-    let mut s = String::new();
-    let lt = d.pats.iter().any(|p| p.cb == Cb::Borrow);
-    s.push_str("#[derive(logos::Logos, Debug, Clone, PartialEq)]\n");
-    if !d.utf8 {
-        s.push_str("#[logos(utf8 = false)]\n");
-    }
-    let _ = writeln!(s, "pub enum {}{} {{", d.name, if lt { "<'s>" } else { "" });
-    // several patterns may share a variant name only if declared so; here every pattern has its own
-    for p in d.pats {
-        let mut args = vec![p.lit.to_string()];
-        if let Some(cb) = callback(p.cb) {
-            args.push(cb.to_string());
-        }
-        args.push(format!("priority = {}", p.prio));
-        if !p.extra.is_empty() {
-            args.push(p.extra.to_string());
-        }
-        let _ = writeln!(s, "    #[{}({})]", p.attr, args.join(", "));
-        match payload(p.cb, d.utf8) {
-            Some(ty) => {
-                let _ = writeln!(s, "    {}({}),", p.var, ty);
-            }
-            None => {
-                let _ = writeln!(s, "    {},", p.var);
-            }
-        }
-    }
-    s.push_str("}\n");
-    s
-}
+include!("gen.rs");
 
 fn main() {
     println!("cargo:rerun-if-changed=table.rs");
     println!("cargo:rerun-if-changed=build.rs");
+    println!("cargo:rerun-if-changed=gen.rs");
+    println!("cargo:rerun-if-env-changed=VERIF_DEF_SEED");
+    println!("cargo:rerun-if-env-changed=VERIF_RANDOM_DEFS");
     let mut out = String::new();
     let mut infos = String::new();
-    for d in TABLE {
+    let mut defs = table_defs();
+    if std::env::var("CARGO_FEATURE_RANDOM_DEFS").is_ok() {
+        // seeded random definitions (thorough tier): keep the ones the real code generator accepts
+        let seed: u64 = std::env::var("VERIF_DEF_SEED").ok().and_then(|s| s.parse().ok()).unwrap_or(7);
+        let want: usize = std::env::var("VERIF_RANDOM_DEFS").ok().and_then(|s| s.parse().ok()).unwrap_or(120);
+        let mut k = 0u64;
+        let mut kept = 0usize;
+        while kept < want && k < 20 * want as u64 {
+            let mut rng = Rng::for_run(seed, "random-def", k);
+            let d = random_def(&mut rng, &format!("Rnd{}", k), false, k % 4 == 0);
+            k += 1;
+            let ts: proc_macro2::TokenStream = enum_source(&d).parse().expect("random definition is not Rust");
+            let ok = std::panic::catch_unwind(|| logos_codegen::generate(ts).to_string()).map(|g| !g.contains("compile_error")).unwrap_or(false);
+            if ok {
+                defs.push(d);
+                kept += 1;
+            }
+        }
+    }
+    for d in &defs {
         let src = enum_source(d);
         // sanity: the real code generator of /repo must accept every hand-written definition
         let ts: proc_macro2::TokenStream = src.parse().expect("table entry is not Rust");
@@ -79,7 +51,7 @@ fn main() {
             n = d.name
         );
         let _ = writeln!(infos, "    DefInfo {{ name: {:?}, utf8: {}, source: {:?}, run: Run::{}(run_{}), pats: &[", d.name, d.utf8, src, if d.utf8 { "Str" } else { "Bytes" }, d.name);
-        for p in d.pats {
+        for p in &d.pats {
             let unicode = !p.lit.starts_with('b');
             let lit_bytes = if unicode { format!("{}.as_bytes()", p.lit) } else { p.lit.to_string() };
             let _ = writeln!(
@@ -89,7 +61,7 @@ fn main() {
             );
         }
         let _ = writeln!(infos, "    ], frags: &[");
-        for f in d.frags {
+        for f in &d.frags {
             if let Some(hex) = f.strip_prefix("x:") {
                 let bytes: Vec<String> = (0..hex.len() / 2).map(|i| format!("0x{}", &hex[2 * i..2 * i + 2])).collect();
                 let _ = writeln!(infos, "        &[{}],", bytes.join(", "));
